@@ -58,6 +58,16 @@ Theorem C03_prefee_covers :
   post <= pre - fee /\ 0 <= fee.
 Proof. exact prefee_covers. Qed.
 
+(* ... and with a pending fee change (two schedules) in EVERY epoch: marginfi grosses up with the schedule the token
+   program charges in that epoch, so the vault still receives at least the booked amount *)
+Theorem C03_prefee_covers_in_every_epoch :
+  forall s epoch post pre fee,
+  0 <= fs_old_bps s <= 10000 -> 0 <= fs_new_bps s <= 10000 -> 0 <= fs_old_max s -> 0 <= fs_new_max s ->
+  0 <= post -> 0 <= pre ->
+  pre_fee_deposit_amount_at s epoch post = Ok pre -> calculate_epoch_fee s epoch pre = Ok fee ->
+  post <= pre - fee /\ 0 <= fee.
+Proof. exact prefee_covers_every_epoch. Qed.
+
 (* Non-vacuity: deposit 1000 at share value 1.5 then withdraw 999 succeeds and loses value *)
 Definition ex_bank : bank :=
   mkBank (3 * ONE / 2) (2 * ONE) 0 0 0 0 0 0 U64_MAX U64_MAX 0 6 0 0 0 0 0 1
@@ -73,3 +83,4 @@ Print Assumptions C03_withdraw_all_rounds_down.
 Print Assumptions C03_repay_all_rounds_up.
 Print Assumptions C03_no_profitable_round_trip.
 Print Assumptions C03_prefee_covers.
+Print Assumptions C03_prefee_covers_in_every_epoch.
